@@ -602,6 +602,7 @@ func checkC08(w *World, r *Report) {
 	checkOperandsNotPromoted(w, r)
 	checkPostfixParsersWrapTheirOperand(w, r)
 	checkTagTextConsumed(w, r, "R08.17")
+	checkOneEvaluator(w, r)
 	checkNumberFormatting(w, r)
 	checkMembershipEquality(w, r, evalCases)
 	checkRelationalNumericFirst(w, r, evalCases)
@@ -2069,4 +2070,68 @@ func shortCircuitSummaries(c *ssa.Call, toBool *types.Func, isLeft func(ssa.Valu
 	}
 	dfs(hst{b: h.Blocks[0], ops: 31})
 	return out, len(out) > 0
+}
+
+// checkOneEvaluator — R08.18: operators are given their meaning in one place.  Every render-
+// reachable function that compares a BinaryNode's operator with an operator constant belongs to
+// the evaluator: it is EvaluateExpression or is reached from it through static calls (four levels).
+// A node renderer that recognises `in` (or `==`, `and` …) in its own condition and decides it
+// with its own comparison is a second evaluator: the same expression then means one thing in an
+// `if` and another in a print tag.
+func checkOneEvaluator(w *World, r *Report) {
+	evalFn := w.ssaFunc(w.method("RenderContext", "EvaluateExpression"))
+	family := map[*ssa.Function]bool{evalFn: true}
+	frontier := []*ssa.Function{evalFn}
+	for d := 0; d < 4; d++ {
+		var next []*ssa.Function
+		for _, f := range frontier {
+			instrsOf(f, func(in ssa.Instruction) {
+				if c, ok := in.(ssa.CallInstruction); ok {
+					if g := c.Common().StaticCallee(); g != nil && isTwigFn(g) && !family[g] {
+						family[g] = true
+						next = append(next, g)
+					}
+				}
+			})
+			for _, a := range f.AnonFuncs {
+				if !family[a] {
+					family[a] = true
+					next = append(next, a)
+				}
+			}
+		}
+		frontier = next
+	}
+	reach := w.renderOnlyReachable()
+	n := 0
+	for _, fn := range w.pkgFuncs() {
+		if !reach[fn] {
+			continue
+		}
+		site := ""
+		instrsOf(fn, func(in ssa.Instruction) {
+			bo, ok := in.(*ssa.BinOp)
+			if !ok || (bo.Op != token.EQL && bo.Op != token.NEQ) || site != "" {
+				return
+			}
+			for _, pr := range [][2]ssa.Value{{bo.X, bo.Y}, {bo.Y, bo.X}} {
+				if _, ok := fieldLoad(unspill(pr[0]), "BinaryNode", "operator"); ok {
+					if _, isConst := pr[1].(*ssa.Const); isConst {
+						site = w.posOf(bo.Pos())
+					}
+				}
+			}
+		})
+		if site == "" {
+			continue
+		}
+		n++
+		construct := "a BinaryNode's operator is interpreted by the evaluator"
+		if family[fn] {
+			r.ok("R08.18", ssaName(fn), construct, site, "EvaluateExpression or a function it calls", true)
+		} else {
+			r.bad("R08.18", ssaName(fn), construct, site, "this function recognises an operator of a BinaryNode itself although the evaluator does not call it: it gives the operator a meaning of its own (its own comparison of the operands), so the expression is worth something else in this position than where EvaluateExpression decides it")
+		}
+	}
+	r.floor("functions interpreting a BinaryNode's operator", n, 1)
 }
